@@ -57,6 +57,15 @@ def rand_spec(rng, depth=0):
       s = T.Object(M.Inner)
     if rng.random() < 0.25 and k != 'any':
       s = s.noneable()
+    if rng.random() < 0.12 and k not in ('any', 'obj'):
+      # frozen (alone or together with noneable): the frozen value is the only
+      # acceptable one, None included.
+      try:
+        fv = V.value_for(s, rng, valid=True)
+        if fv is not None:
+          s = s.freeze(fv)
+      except Exception:  # pylint: disable=broad-except
+        pass
     return s
   if r < 0.75:
     lo = rng.choice([0, 0, 1, 2]); hi = rng.choice([None, lo + 1, lo + 3])
@@ -79,7 +88,7 @@ def make_root(rng):
   """Returns (description, value)."""
   r = rng.random()
   if r < 0.45:
-    d = D.typed_obj(rng)
+    d = D.typed_obj(rng, 'Typed2' if rng.random() < 0.3 else None)
     return D.show(d), D.build(d)
   if r < 0.55:
     kw = {}
@@ -92,7 +101,7 @@ def make_root(rng):
     spec = rand_spec(rng, 0)
     while not isinstance(spec, (T.List, T.Dict)):
       spec = rand_spec(rng, 0)
-    partial = rng.random() < 0.2
+    partial = rng.random() < 0.3
     try:
       if isinstance(spec, T.List):
         v = pg.List(V.value_for(spec, rng, valid=True), value_spec=spec, allow_partial=partial)
@@ -139,7 +148,7 @@ def run_case(ctx, i):
   if first:
     return
   trace, kinds, n_ok, n_rej = [], [], 0, 0
-  scope_p = {'writable': 0.45, 'notify_off': 0.08, 'partial': 0.03}
+  scope_p = {'writable': 0.45, 'notify_off': 0.08, 'partial': 0.1}
   partial_used = False
   n_steps = rng.randint(ctx.params['steps'] // 2, ctx.params['steps'])
   for _ in range(n_steps):
